@@ -827,15 +827,25 @@ def sampling_history(ctx, npts=2, keep=True, same=False, ordered=False, conds=Fa
         warm = mk()
         lp1 = lp2 = None
         if conds:
+            # conds: True = two different dictionaries; "inplace" = the caller's one dictionary is modified between the queries;
+            #        "equal" = a second dictionary with the same content
             r1 = ctx.real("restrict1", (0.1, 0.4)); r2 = ctx.real("restrict2", (0.5, 0.9))
-            ctx.assume(r1 != r2, "the two queries restrict the precipitate sampling differently")
+            if conds == "equal":
+                r2 = r1
+            else:
+                ctx.assume(r1 != r2, "the two queries restrict the precipitate sampling differently")
             lp1 = {"restrict": r1}; lp2 = {"restrict": r2}
         d1, c1 = warm.getDrivingForce(x, T1, precPhase="P1", removeCache=not keep, local_phase_sampling_conditions=lp1)
         n1 = len(log)
+        if conds == "inplace":
+            lp1["restrict"] = r2
+            lp2 = lp1
         d2, c2 = warm.getDrivingForce(x, T2, precPhase="P1", removeCache=not keep, local_phase_sampling_conditions=lp2)
         n2 = len(log)
+        if conds:
+            ctx.prove("caller's sampling-conditions dictionary not modified by the query", list(lp2.keys()) == ["restrict"] and lp2["restrict"] is r2)
         fresh = mk()
-        df, cf = fresh.getDrivingForce(x, T2, precPhase="P1", removeCache=False, local_phase_sampling_conditions=lp2)
+        df, cf = fresh.getDrivingForce(x, T2, precPhase="P1", removeCache=False, local_phase_sampling_conditions=(None if not conds else {"restrict": r2}))
         ctx.observe("dg_hist", d2 * 1.0); ctx.observe("dg_fresh", df * 1.0)
         ctx.prove("sampling driving force after a query at another temperature equals a fresh object's answer",
                   ctx.all([ctx.eq(d2 * 1.0, df * 1.0), ctx.eq(c2 * 1.0, cf * 1.0)]))
@@ -1216,10 +1226,11 @@ HARNESSES = [
                     "thorough": [{"first": f, "rc1": r1, "second": sc, "rc2": r2, "entry": "impingement", "clear": c} for f in ("two", "matrix") for r1 in (False, True)
                                  for sc in ("matrix", "invalid", "two") for r2 in (False, True) for c in (False, True)]}),
     Harness("C09.sampling_conditions", sampling_history, functions=[GeneralThermodynamics.getDrivingForce, GeneralThermodynamics._getDrivingForceSampling, GeneralThermodynamics._getPrecCompositionSetSamplingDF],
-            assumptions=["two queries with different local_phase_sampling_conditions; the samples the backend returns depend on them"],
+            assumptions=["two queries with different local_phase_sampling_conditions (two dictionaries, or the caller's one dictionary modified in place in between), or with an equal second dictionary; the samples the backend returns depend on the conditions"],
             stubs=["as C09.sampling_history; calculate: GM_j = uninterpreted function of (T, sampling restriction)"], bounds={"sample points": "npts", "queries": 2},
-            params={"quick": [{"npts": 2, "keep": True, "same": True, "conds": True}, {"npts": 2, "keep": True, "conds": True}],
-                    "thorough": [{"npts": 3, "keep": k, "same": sm, "conds": True} for k in (True, False) for sm in (True, False)]}),
+            params={"quick": [{"npts": 2, "keep": True, "same": True, "conds": True}, {"npts": 2, "keep": True, "conds": True},
+                              {"npts": 2, "keep": True, "same": True, "conds": "inplace"}, {"npts": 2, "keep": True, "same": True, "conds": "equal"}],
+                    "thorough": [{"npts": 3, "keep": k, "same": sm, "conds": c} for k in (True, False) for sm in (True, False) for c in (True, "inplace", "equal")]}),
     Harness("C09.cache_key_wide", cache_key, functions=_F_HT, assumptions=_A_HT, stubs=_S_HT, bounds={"solutes": "ne", "precision": "s = 17, 18 (T*10^s leaves the int64 range for every T >= 92.3 K: all temperatures share one key; s = 16: for T >= 922.34 K)"},
             params={"quick": [{"s": 17, "ne": 1, "stores": 1}, {"s": 18, "ne": 1, "stores": 1}], "thorough": [{"s": s_, "ne": 2, "stores": 2} for s_ in (17, 18)]}),
 ]
